@@ -32,10 +32,13 @@ structure Flags where
   loopFlush : Bool
   /-- K20e: a handler error during replay does not drop the rest of the batch -/
   continueOnError : Bool
+  /-- K20f: the buffering wrapper (on the Logger's one `bufferState`) is part of every handler chain from
+      construction on (`initializeHandler`), instead of being installed by the first `StartBuffering` -/
+  stable : Bool
   deriving Repr, DecidableEq
 
-def Flags.fixed : Flags := ⟨true, true, true, true⟩
-def Flags.asIs : Flags := ⟨false, false, false, false⟩
+def Flags.fixed : Flags := ⟨true, true, true, true, true⟩
+def Flags.asIs : Flags := ⟨false, false, false, false, false⟩
 
 /-- a log call: sequence number within its worker, level (0 debug … 3 error), whether it goes through
     `l.With("w", g)` (else `l.Info` …), whether the environment fails the write of this record -/
@@ -45,7 +48,8 @@ structure LogCall where
   derived : Bool
   fail : Bool
   /-- logged through a `*slog.Logger` obtained (`Logger()`) before any `StartBuffering`: it holds the
-      handler chain as it was then — not wrapped, level as configured at construction (finding K20f) -/
+      handler chain as it was then — level as configured at construction; as shipped that chain had no
+      buffering wrapper (finding K20f), repaired it has the wrapper on the Logger's buffer state -/
   stale : Bool := false
   deriving Repr, DecidableEq
 
@@ -163,13 +167,14 @@ def advance (fl : Flags) (s : St) (g : Nat) : St :=
         match op with
         | .log c =>
           let s := emit s [.begin g w.idx]
-          if c.stale then
-            -- a stale slog.Logger: the level it was built with (Info), no shutdown check, no buffer
+          if c.stale && !fl.stable then
+            -- as shipped, a stale slog.Logger: the level it was built with (Info), no shutdown check, no buffer
             if decide (1 ≤ c.lvl) then setWorker s g { w with gate := some (.pass { g := g, c := c }) }
             else finishOp s g w
           else
-          -- `Logger.log`: shutdown check (only on the Logger's own methods), level check
-          let accepted := decide (s.level ≤ c.lvl) && (c.derived || !s.shutdown)
+          -- `Logger.log`: shutdown check (only on the Logger's own methods), level check; a stale
+          -- slog.Logger has the level it was built with (Info) and, like every slog.Logger, no shutdown check
+          let accepted := bif c.stale then decide (1 ≤ c.lvl) else decide (s.level ≤ c.lvl) && (c.derived || !s.shutdown)
           if !accepted then finishOp s g w
           else if s.wrapped && s.buffering then
             finishOp { s with buffer := s.buffer ++ [{ g := g, c := c }] } g w
@@ -189,7 +194,7 @@ def advance (fl : Flags) (s : St) (g : Nat) : St :=
             else
               let keep := fl.rewrap && s.wrapped && s.buffering
               let s := if keep then { s with level := lvl }
-                       else { s with level := lvl, wrapped := false, buffering := false, buffer := [] }
+                       else { s with level := lvl, wrapped := fl.stable, buffering := false, buffer := [] }
               finishOp s g w
         | .shutdown => finishOp { (emit s [.begin g w.idx]) with shutdown := true } g w
         | .flush =>
@@ -219,14 +224,15 @@ def step (fl : Flags) (fuel : Nat) (s : St) : Step → St
   | .seg g => advance fl s g
   | .run g => runToIdle fl fuel s g
 
-def initSt (custom : Bool) (progs : List (List Op)) : St :=
+/-- `stable` (K20f repaired): `New` already builds the chain with the buffering wrapper -/
+def initSt (stable custom : Bool) (progs : List (List Op)) : St :=
   { ws := progs.map fun p => { ops := p, idx := 0, gate := none }, level := 1, shutdown := false, custom := custom,
-    wrapped := false, buffering := false, buffer := [], flusher := none, batch := [], trace := [] }
+    wrapped := stable, buffering := false, buffer := [], flusher := none, batch := [], trace := [] }
 
 def totalOps (progs : List (List Op)) : Nat := (progs.map List.length).foldl (· + ·) 0
 
 /-- the trace of a history: worker programs and a schedule -/
 def run (fl : Flags) (custom : Bool) (progs : List (List Op)) (sched : List Step) : List Ev :=
-  (sched.foldl (step fl (totalOps progs + 2)) (initSt custom progs)).trace
+  (sched.foldl (step fl (totalOps progs + 2)) (initSt fl.stable custom progs)).trace
 
 end Rivaas.LogBuf
